@@ -733,7 +733,7 @@ theorem lt_nb_of_isTook (w : World) (hI : AInv w) (b : BId) (h : (w.bus b).rl.is
   | inr h' => have := (hI.newb b h').2.1; rw [h] at this; cases this
 
 theorem peOpen_acct (w : World) (p : Proc) (b : BId) (e : EId) :
-    (peOpen w p b e).acct = (w.setAct p (some { bus := b, ev := e, todo := applicable w b e, running := [] })).acct := by
+    (peOpen w p b e).acct = (w.setAct p (some { bus := b, ev := e, todo := applicable w b e, running := [], sel := applicable w b e })).acct := by
   unfold peOpen; simp only []; split
   · rw [markComplete_acct]; rfl
   · rfl
@@ -764,7 +764,7 @@ theorem ainv_peBegin (w : World) (p : Proc) (b : BId) (e : EId) (hI : AInv w) (h
     have hit : (w.bus b').rl.isTook = true := by rw [htk]; rfl
     have hb : b' < w.nb := lt_nb_of_isTook w hI b' hit
     obtain ⟨W, hW⟩ : ∃ W, W = (peEnter w (.rl b') b').setAct (.rl b')
-        (some { bus := b', ev := e, todo := applicable (peEnter w (.rl b') b') b' e, running := [] }) := ⟨_, rfl⟩
+        (some { bus := b', ev := e, todo := applicable (peEnter w (.rl b') b') b' e, running := [], sel := applicable (peEnter w (.rl b') b') b' e }) := ⟨_, rfl⟩
     have hacct : (peOpen (peEnter w (.rl b') b') (.rl b') b' e).acct = W.acct := by rw [hW]; exact peOpen_acct _ _ _ _
     have hWI : AInv W := by
       apply ainv_bus_master w W hI b' hb (by rw [hW]; rfl) (by rw [hW]; rfl) (by rw [hW]; simp [peEnter])
@@ -785,7 +785,7 @@ theorem ainv_peBegin (w : World) (p : Proc) (b : BId) (e : EId) (hI : AInv w) (h
     have hi : i < w.ni := lt_ni_of_took w hI i (by rw [hp]; simp)
     have hb : b < w.nb := lt_nb_of_tookOn w hI b i htk
     obtain ⟨W, hW⟩ : ∃ W, W = (peEnter w (.inst i) b).setAct (.inst i)
-        (some { bus := b, ev := e, todo := applicable (peEnter w (.inst i) b) b e, running := [] }) := ⟨_, rfl⟩
+        (some { bus := b, ev := e, todo := applicable (peEnter w (.inst i) b) b e, running := [], sel := applicable (peEnter w (.inst i) b) b e }) := ⟨_, rfl⟩
     have hacct : (peOpen (peEnter w (.inst i) b) (.inst i) b e).acct = W.acct := by rw [hW]; exact peOpen_acct _ _ _ _
     have hWI : AInv W := by
       apply ainv_inst_master w W hI i hi b hb (by rw [hW]; rfl) (by rw [hW]; rfl)
